@@ -69,6 +69,9 @@ func parseDocker(raw string, kind Kind, first bool) (*URL, error) {
 		if r == splitCharacter {
 			break
 		} else if r == '@' {
+			if i == 0 {
+				return nil, errors.New("empty username specified")
+			}
 			username = raw[:i]
 			raw = raw[i+1:]
 			break
